@@ -58,8 +58,10 @@ type c02Cluster struct {
 
 	mu      sync.Mutex
 	objs    map[c02Key]c02Val
-	nss     map[int]int // ns rank -> label value
-	watches map[string]int
+	nss     map[int]int                // ns rank -> label value
+	watches map[string]int             // watch key -> number of watches opened so far
+	stores  map[string]map[string]bool // watch key -> shared informers (factories) seen for it
+	nsInfs  int                        // namespace informers started in this case
 }
 
 func c02NsRank(s string) int {
@@ -88,7 +90,7 @@ func c02KindRank(s string) int {
 }
 
 func newC02Cluster(idx int) *c02Cluster {
-	cl := &c02Cluster{objs: map[c02Key]c02Val{}, nss: map[int]int{}, watches: map[string]int{}}
+	cl := &c02Cluster{objs: map[c02Key]c02Val{}, nss: map[int]int{}, watches: map[string]int{}, stores: map[string]map[string]bool{}}
 	cl.group = fmt.Sprintf("c%d.verif.test", idx)
 	cl.fc = fake.NewFakeCluster(fake.ClusterVersionV121)
 	for _, k := range c02Kinds {
@@ -138,12 +140,6 @@ func (cl *c02Cluster) noteWatch(k string) {
 	cl.mu.Lock()
 	cl.watches[k]++
 	cl.mu.Unlock()
-}
-
-func (cl *c02Cluster) hasWatch(k string) bool {
-	cl.mu.Lock()
-	defer cl.mu.Unlock()
-	return cl.watches[k] > 0
 }
 
 func c02ObjKey(o runtime.Object) string {
@@ -756,9 +752,11 @@ func (cl *c02Cluster) settle(mon kem.Monitor, s c02MonSpec, want string) (got st
 	}
 }
 
-// waitWatches waits until every informer of the monitor (and its namespace informer) has its
-// watch established on the fake cluster: the fake has no resource versions, an object written
-// between an informer's list and its watch would be lost by the fake, not by the operator.
+// waitWatches waits until every informer of the monitor (and its namespace informer) is registered
+// with a shared informer whose watch is established on the fake cluster: the fake has no resource
+// versions, an object written between a shared informer's list and its watch would be lost by the
+// fake, not by the operator. Every shared informer opens exactly one watch right after its list, so
+// "watches opened for the key >= shared informers ever seen for the key" means all of them have.
 func (cl *c02Cluster) waitWatches(mon kem.Monitor, s c02MonSpec, wantVaryingNs []int) bool {
 	deadline := time.Now().Add(10 * time.Second)
 	for {
@@ -776,17 +774,31 @@ func (cl *c02Cluster) waitWatches(mon kem.Monitor, s c02MonSpec, wantVaryingNs [
 				fs = p.String()
 			}
 			k := inf.Index.GVR.String() + "|" + inf.Index.Namespace + "|" + ls + "|" + fs
-			if !cl.hasWatch(k) {
+			if !inf.Registered || inf.StoreID == "" {
+				ok = false
+				continue
+			}
+			cl.mu.Lock()
+			if cl.stores[k] == nil {
+				cl.stores[k] = map[string]bool{}
+			}
+			cl.stores[k][inf.StoreID] = true
+			if cl.watches[k] < len(cl.stores[k]) {
 				ok = false
 			}
+			cl.mu.Unlock()
 		}
 		for _, ns := range wantVaryingNs {
 			if !seen[c02Namespaces[ns-1]] {
 				ok = false
 			}
 		}
-		if s.nsSel && !cl.hasWatch("namespaces||"+c02LabelKey+"=yes|") {
-			ok = false
+		if s.nsSel {
+			cl.mu.Lock()
+			if cl.watches["namespaces||"+c02LabelKey+"=yes|"] < cl.nsInfs {
+				ok = false
+			}
+			cl.mu.Unlock()
 		}
 		if ok {
 			return true
